@@ -17,7 +17,7 @@ import z3
 
 from .values import (Factory, T, TAny, TBool, TInt, TNone, TNStr, TOpt, TRec, TSeq, TTup, Unsupported, V, VAny,
                      VBool, VClass, VExc, VFunc, VInt, VNone, VNStr, VOpt, VRec, VSeq, VTup, fresh_name, parse_type,
-                     wf_facts)
+                     sort_of, wf_facts)
 
 MAX_CP = 0x10FFFF
 
@@ -88,6 +88,22 @@ class Engine:
         self.n_paths = 0
         self._rec_spec_funcs: Dict[str, Any] = {}
         self.hints_used: set = set()
+        self.comp_ctx: List[Any] = []         # index terms of the comprehensions being evaluated
+        self.comp_collect: Optional[List[Any]] = None
+        self.comp_calls = 0
+        self.fold_ordinal = 0
+        for ax in getattr(reg, "axioms", {}).values():
+            env = {}
+            bound = []
+            for n, tn in ax.types.items():
+                v = self.fac.mk(parse_type(tn), "ax_" + ax.name + "_" + n)
+                if not isinstance(v, (VRec, VAny, VInt, VBool)):
+                    raise Unsupported("axiom over non-scalar variable")
+                env[n] = v
+                bound.append(v.t)
+            self._cur_state = State([], env)
+            body = self.truthy(self.ev_clause(ax.body, env, heap={}))
+            self.axioms.append(z3.ForAll(bound, body) if bound else body)
 
     # ------------------------------------------------------------------ util
     qdepth = 0
@@ -203,6 +219,15 @@ class Engine:
             return VOpt(z3.If(c, ao.is_none, bo.is_none), self.merge(c, ao.val, bo.val))
         raise Unsupported(f"cannot merge {a!r} / {b!r}")
 
+    def ident(self, a: V, b: V):
+        """the two values are the same value / object (used for facts about what a constructor stores,
+        where user-defined __eq__ must not interfere)"""
+        self._identity = getattr(self, "_identity", 0) + 1
+        try:
+            return self.eq(a, b)
+        finally:
+            self._identity -= 1
+
     def eq(self, a: V, b: V):
         """Python == as a z3 Bool"""
         if isinstance(a, VOpt) or isinstance(b, VOpt):
@@ -220,6 +245,8 @@ class Engine:
         if isinstance(a, VNStr) and isinstance(b, VNStr): return a.t == b.t
         if isinstance(a, VRec) and isinstance(b, VRec):
             if a.cls != b.cls: return z3.BoolVal(False)
+            if getattr(self, "_identity", 0):
+                return a.t == b.t
             m = self.method_contract(a.cls, "__eq__")
             if m is not None:
                 return self.truthy(self.call_contract(m, [a, b], self._cur_state, 0))
@@ -233,6 +260,15 @@ class Engine:
             if a.kind != b.kind or len(a.items) != len(b.items): return z3.BoolVal(False)
             return z3.And(*[self.eq(x, y) for x, y in zip(a.items, b.items)]) if a.items else z3.BoolVal(True)
         if isinstance(a, (VSeq, VTup)) and isinstance(b, (VSeq, VTup)):
+            if isinstance(a, VTup) or isinstance(b, VTup):
+                # fixed arity on one side: ground, element-wise equality (gives the solver the ground
+                # element terms it needs as instantiation triggers)
+                tup, other = (a, b) if isinstance(a, VTup) else (b, a)
+                so = self.to_seq(other)
+                if so.kind != tup.kind: return z3.BoolVal(False)
+                parts = [so.length == len(tup.items)]
+                parts += [self.eq(so.at(z3.IntVal(k)), it) for k, it in enumerate(tup.items)]
+                return z3.And(*parts)
             sa, sb = self.to_seq(a), self.to_seq(b)
             if sa.kind != sb.kind: return z3.BoolVal(False)
             i = self.bound_var()
@@ -265,6 +301,12 @@ class Engine:
         raise Unsupported(f"cannot havoc {v!r}")
 
     # ----------------------------------------------------------- contracts
+    def find_subclass(self, name: str):
+        for r in self.reg.records.values():
+            if name in getattr(r, "subclasses", {}):
+                return r, r.subclasses[name]
+        return None, None
+
     def method_contract(self, cls: str, name: str):
         for c in self.reg.contracts.values():
             if c.qualname == f"{cls}.{name}":
@@ -301,9 +343,20 @@ class Engine:
         missing = [p for p in params if p not in env]
         if missing:
             raise Unsupported(f"call of {c.key}: missing args {missing} (defaults not modelled)")
+        # ghost parameters (closure) of the callee are universally quantified at the call site
+        ghost_bound = []
+        for gname, gtype in (c.closure or {}).items():
+            gv = self.fac.mk(parse_type(gtype), f"{gname}@{self.qdepth}")
+            if not isinstance(gv, (VRec, VAny, VInt, VBool)):
+                raise Unsupported("non-scalar ghost parameter at a call site")
+            self.qdepth += 1
+            ghost_bound.append(gv.t)
+            env[gname] = gv
         # pre@callsite
         if c.requires.strip() != "True":
             pre = self.truthy(self.ev_clause(c.requires, env, heap=st.heap))
+            if ghost_bound:
+                pre = z3.ForAll(ghost_bound, pre)
             self.oblige(st, f"pre@L{lineno}:{c.qualname}", "pre@callsite", pre, lineno)
             if not self.spec_mode and not self.guards:
                 st.pc.append(pre)
@@ -313,14 +366,16 @@ class Engine:
             may = self.truthy(self.ev_clause(cond, env, heap=st.heap))
             self.safety(st, z3.Not(may), exc_name, lineno, f"callee-{c.qualname}")
         # decreases for recursion
-        if c is self.c and not self.spec_mode and self.emit:
-            if not c.decreases:
+        if (c is self.c or c.key == (self.c.path_hints or {}).get("recursion_via")) and not self.spec_mode and self.emit:
+            c_dec = self.c
+            if not c_dec.decreases:
                 raise Unsupported("recursive call without `decreases`")
-            m_callee = self.as_int(self.ev_clause(c.decreases, env))
-            m_caller = self.as_int(self.ev_clause(c.decreases, self.entry_env))
+            m_callee = self.as_int(self.ev_clause(c_dec.decreases, env))
+            m_caller = self.as_int(self.ev_clause(c_dec.decreases, self.entry_env))
             self.oblige(st, f"decreases@L{lineno}", "decreases", z3.And(m_caller >= 0, m_callee < m_caller), lineno)
         if c.result_is is not None:
             res = self.ev_clause(c.result_is, env, heap=st.heap)
+            self.qdepth -= len(ghost_bound)
             return self.coerce(res, parse_type(c.returns)) if c.returns != "Any" else res
         # the callee may write the listed fields of its `self`: havoc them, the ensures speaks about the new values
         mods = (c.path_hints or {}).get("modifies", [])
@@ -330,18 +385,27 @@ class Engine:
                 ft = parse_type(self.reg.records[obj.cls].fields[f])
                 st.heap.setdefault(f"{obj.cls}.{f}", []).append((obj.t, self.fac.mk(ft, fresh_name(f"{obj.cls}.{f}.after"))))
         rt = parse_type(c.returns)
-        res = self.fac.mk(rt, fresh_name(f"res_{c.qualname}"))
+        if self.comp_ctx:
+            # inside a comprehension the result is a function of the index (same symbol on every evaluation)
+            self.comp_calls += 1
+            res = self.fac.mk(rt, f"res_{c.qualname}@L{lineno}#{self.comp_calls}", list(self.comp_ctx))
+        else:
+            res = self.fac.mk(rt, fresh_name(f"res_{c.qualname}"))
         facts = wf_facts(res)
         if c.ensures:
             env2 = dict(env)
             env2["result"] = res
-            facts.append(self.truthy(self.ev_clause(c.ensures_text(), env2, heap=st.heap)))
-        target = st.pc if not self.guards else st.pc
+            ens = self.truthy(self.ev_clause(c.ensures_text(), env2, heap=st.heap))
+            facts.append(z3.ForAll(ghost_bound, ens) if ghost_bound else ens)
+        self.qdepth -= len(ghost_bound)
+        if self.comp_collect is not None:
+            self.comp_collect.extend(facts)
+            return res
         for f in facts:
             if self.guards:
-                target.append(z3.Implies(z3.And(*self.guards), f))
+                st.pc.append(z3.Implies(z3.And(*self.guards), f))
             else:
-                target.append(f)
+                st.pc.append(f)
         return res
 
     def coerce(self, v: V, t: T) -> V:
@@ -402,6 +466,7 @@ class Engine:
         if n in self.reg.specs: return VFunc(builtin="spec:" + n, name=n)
         if n in BUILTINS: return VFunc(builtin=n, name=n)
         if n in self.reg.records: return VClass(n)
+        if self.find_subclass(n)[0] is not None: return VClass(n)
         c = self.reg.by_name(n, prefer_file=self.c.file)
         if c is not None: return VFunc(contract=c, name=n)
         if n in EXC_NAMES: return VExc(n)
@@ -815,6 +880,9 @@ class Engine:
         self.bind_target(g.target, self.elem(it, idx), st2, node.lineno)
         conds = []
         pushed = 0
+        self.comp_ctx.append(idx)
+        saved_calls = self.comp_calls
+        self.comp_calls = 0
         try:
             for c in g.ifs:
                 t = self.truthy(self.ev(c, st2))
@@ -825,6 +893,8 @@ class Engine:
         finally:
             for _ in range(pushed):
                 self.guards.pop()
+            self.comp_ctx.pop()
+            self.comp_calls = saved_calls
         return (z3.And(*conds) if conds else z3.BoolVal(True)), val
 
     def ev_ListComp(self, node, st):
@@ -838,14 +908,26 @@ class Engine:
             self.guards.pop()
         if g.ifs:
             return self.filtered(node, g, it, st, sample)
+        # facts assumed from contracted calls in the body hold for every index: one quantified hypothesis
+        kb = self.bound_var()
+        old_emit, old_col = self.emit, self.comp_collect
+        self.emit, self.comp_collect = False, []
+        try:
+            self.comp_body(node, g, it, st, kb, node.elt)
+            facts = self.comp_collect
+        finally:
+            self.emit, self.comp_collect = old_emit, old_col
+            self.unbind()
+        if facts and not self.spec_mode:
+            st.pc.append(z3.ForAll([kb], z3.Implies(z3.And(kb >= 0, kb < it.length), z3.And(*facts))))
 
         def at(i):
-            old = self.emit
-            self.emit = False
+            old, oc = self.emit, self.comp_collect
+            self.emit, self.comp_collect = False, []
             try:
                 return self.comp_body(node, g, it, st, i, node.elt)[1]
             finally:
-                self.emit = old
+                self.emit, self.comp_collect = old, oc
         return VSeq("list", it.length, at, self.type_of(sample))
 
     ev_GeneratorExp = ev_ListComp
@@ -930,6 +1012,39 @@ class Engine:
         if isinstance(node.func, ast.Name) and node.func.id == "ite" and len(node.args) == 3:
             c = self.truthy(self.ev(node.args[0], st))
             return self.merge(c, self.ev(node.args[1], st), self.ev(node.args[2], st))
+        if isinstance(node.func, ast.Name) and node.func.id in ("uf_bool", "uf_int", "uf_sort") and node.args \
+                and isinstance(node.args[0], ast.Constant):
+            # uninterpreted function of the specification: uf_bool("name", args...), uf_sort("name", "Sort", args...)
+            which = node.func.id
+            uname = node.args[0].value
+            rest = node.args[1:]
+            if which == "uf_sort":
+                rng = sort_of(rest[0].value)
+                rest = rest[1:]
+            else:
+                rng = z3.BoolSort() if which == "uf_bool" else z3.IntSort()
+            zs = []
+            for a in rest:
+                v = self.ev(a, st)
+                if isinstance(v, VOpt):
+                    v = v.val
+                if not isinstance(v, (VRec, VAny, VInt, VBool)):
+                    raise Unsupported("uf over non-scalar argument")
+                zs.append(v.t)
+            app = z3.Function("uf." + uname, *[z.sort() for z in zs], rng)(*zs) if zs else z3.Const("uf." + uname, rng)
+            return VBool(app) if which == "uf_bool" else VInt(app) if which == "uf_int" else VAny(app)
+        if isinstance(node.func, ast.Name) and node.func.id in ("forall_sort", "exists_sort") and len(node.args) == 3 \
+                and isinstance(node.args[0], ast.Name) and isinstance(node.args[1], ast.Constant):
+            var, sname = node.args[0].id, node.args[1].value
+            bv = z3.Const(f"{var}@{self.qdepth}", sort_of(sname))
+            self.qdepth += 1
+            try:
+                st2 = st.fork()
+                st2.env[var] = VRec(sname, bv) if sname in self.reg.records else VAny(bv)
+                body = self.truthy(self.ev(node.args[2], st2))
+            finally:
+                self.qdepth -= 1
+            return VBool(z3.ForAll([bv], body) if node.func.id == "forall_sort" else z3.Exists([bv], body))
         if isinstance(node.func, ast.Name) and node.func.id == "count_eq" and len(node.args) == 3:
             seq = self.to_seq(self.ev(node.args[0], st))
             return self.count_eq(seq, self.ev(node.args[1], st), self.as_int(self.ev(node.args[2], st)))
@@ -956,7 +1071,8 @@ class Engine:
         if ghost_calls:
             txt = ast.unparse(node)
             if txt in ghost_calls:
-                return st.env[ghost_calls[txt]]
+                g = ghost_calls[txt]
+                return st.env[g] if g in st.env else self.ev_clause(g, st.env, heap=st.heap)
         if any(isinstance(a, ast.Starred) for a in node.args):
             raise Unsupported("starred call argument")
         if isinstance(node.func, ast.Attribute) and isinstance(node.func.value, ast.Name) \
@@ -1162,19 +1278,62 @@ class Engine:
                 env[p] = type(a)(a.cls, bv) if isinstance(a, VRec) else type(a)(bv)
             self.spec_mode += 1
             saved = getattr(self, "_cur_state", None)
+            lhs = fn(*bound)
             try:
                 node = ast.parse(s.body.strip(), mode="eval").body
-                body = self.ev(node, State([], env, {k: list(v) for k, v in heap.items()}))
+                hp = {k: list(v) for k, v in heap.items()}
+                # a definition by cases `ite(c1, b1, ite(c2, b2, ... e))` becomes one guarded axiom per case
+                cases = []
+                neg = []
+                while isinstance(node, ast.Call) and isinstance(node.func, ast.Name) and node.func.id == "ite" \
+                        and len(node.args) == 3:
+                    c = self.truthy(self.ev(node.args[0], State([], env, hp)))
+                    cases.append((z3.And(*neg, c), node.args[1]))
+                    neg.append(z3.Not(c))
+                    node = node.args[2]
+                cases.append((z3.And(*neg) if neg else z3.BoolVal(True), node))
+                for guard, bnode in cases:
+                    body = self.ev(bnode, State([], env, hp))
+                    rhs = self.truthy(body) if s.returns == "Bool" else self.as_int(body)
+                    ax = z3.Implies(guard, lhs == rhs)
+                    self.axioms.append(z3.ForAll(bound, ax, patterns=[lhs]) if bound else ax)
             finally:
                 self.spec_mode -= 1
                 self._cur_state = saved
-            lhs = fn(*bound)
-            rhs = self.truthy(body) if s.returns == "Bool" else self.as_int(body)
-            self.axioms.append(z3.ForAll(bound, lhs == rhs, patterns=[lhs]) if bound else lhs == rhs)
         r = fn(*zargs)
         return VBool(r) if s.returns == "Bool" else VInt(r)
 
     def construct(self, cls: str, args: List[V], kwargs, st: State, lineno: int) -> V:
+        r0, info = self.find_subclass(cls)
+        if r0 is not None:
+            # subclass folded into the record sort r0: tag + constructor field mapping (assumed: the
+            # constructors of these classes only store their arguments)
+            obj = self.fac.mk(TRec(r0.name), fresh_name("new_" + cls))
+            facts = [self.as_int(self.fac.field(obj, r0.tag_field)) == info["tags"][0]]
+            ctor = info.get("ctor", [])
+            rest = list(args)
+            for fld in ctor:
+                if fld.endswith("*"):
+                    vals = rest
+                    rest = []
+                    self.safety(st, z3.BoolVal(len(vals) >= info.get("min_args", 0)), "RuntimeError", lineno, "ctor-arity")
+                    ft = parse_type(r0.fields[fld[:-1]])
+                    facts.append(self.ident(self.fac.field(obj, fld[:-1]), VTup(vals, "tuple")))
+                else:
+                    if not rest:
+                        if fld in kwargs:
+                            v = kwargs[fld]
+                        else:
+                            continue          # optional trailing constructor argument
+                    else:
+                        v = rest.pop(0)
+                    ft = parse_type(r0.fields[fld])
+                    facts.append(self.ident(self.fac.field(obj, fld), self.coerce(v, ft)))
+            if rest:
+                raise Unsupported(f"constructor {cls}: too many arguments")
+            for f in facts:
+                st.pc.append(z3.Implies(z3.And(*self.guards), f) if self.guards else f)
+            return obj
         init = self.method_contract(cls, "__init__")
         r = self.reg.records[cls]
         obj = self.fac.mk(TRec(cls), fresh_name("new_" + cls))
@@ -1207,7 +1366,7 @@ class Engine:
         vals.update(kwargs)
         for fname in fields:
             ft = parse_type(r.fields[fname])
-            fact = self.eq(self.fac.field(obj, fname), self.coerce(vals[fname], ft))
+            fact = self.ident(self.fac.field(obj, fname), self.coerce(vals[fname], ft))
             st.pc.append(z3.Implies(z3.And(*self.guards), fact) if self.guards else fact)
         return obj
 
@@ -1575,7 +1734,7 @@ class Engine:
                             continue
                         if any(not is_true(t == old_self.t) for t, _ in writes):
                             raise Unsupported("constructor writes fields of another object")
-                        o.st.pc.append(self.eq(self.fac.field(new_self, fld), self.read_field(old_self, fld, o.st.heap)))
+                        o.st.pc.append(self.ident(self.fac.field(new_self, fld), self.read_field(old_self, fld, o.st.heap)))
                     env2["self"] = new_self
                     o.st.heap = {}
                 rt = parse_type(c.returns) if c.returns != "Any" else None
@@ -1745,7 +1904,14 @@ def _b_anyall(which):
 
 def _b_isinstance(e, args, kw, st, ln):
     v, cls = args
+    if isinstance(v, VOpt):
+        inner = _b_isinstance(e, [v.val, cls], kw, st, ln)
+        return VBool(z3.And(z3.Not(v.is_none), inner.t))
     if isinstance(cls, VClass) and isinstance(v, VRec):
+        r, info = e.find_subclass(cls.name)
+        if r is not None and r.name == v.cls:
+            tag = e.as_int(e.read_field(v, r.tag_field, st.heap))
+            return VBool(z3.Or(*[tag == t for t in info["tags"]]))
         return VBool(v.cls == cls.name)
     raise Unsupported("isinstance")
 
@@ -1783,7 +1949,46 @@ def _b_reduce(e: Engine, args, kw, st, ln):
             init = e.truthy(args[2])
             r = z3.And(init, r) if f.builtin == "operator.and_" else z3.Or(init, r)
         return VBool(r)
-    raise Unsupported("reduce (only operator.and_/or_ over Booleans is modelled)")
+    if isinstance(f, VFunc) and f.node is not None and isinstance(f.node, ast.Lambda) and len(f.node.args.args) == 2:
+        # fold schema: reduce(lambda acc, x: body, xs[, init]) with an invariant over (acc, _k) from the
+        # contract (path_hints["folds"][ordinal]); obligations: inv-init, inv-step; result satisfies inv at len(xs)
+        folds = (e.c.path_hints or {}).get("folds", {})
+        key = ast.unparse(f.node)
+        spec = None
+        for patt, sp in folds.items():
+            if key.startswith(patt):
+                spec = sp
+        if spec is None:
+            raise Unsupported(f"reduce at L{ln}: no fold invariant for `{key[:40]}`")
+        xs = e.to_seq(args[1])
+        accn = f.node.args.args[0].arg
+
+        def inv(acc, k, state):
+            env = dict(state.env)
+            env.update(f.env or {})
+            env[accn] = acc
+            env["_k"] = VInt(k)
+            env["_xs"] = xs
+            return e.truthy(e.ev_clause(spec["invariant"], env, heap=state.heap))
+        if len(args) == 3:
+            acc0, k0 = args[2], z3.IntVal(0)
+        else:
+            e.safety(st, xs.length >= 1, "TypeError", ln, "reduce-empty")
+            acc0, k0 = e.elem(xs, z3.IntVal(0)), z3.IntVal(1)
+        e.oblige(st, f"fold-init@L{ln}", "inv-init", inv(acc0, k0, st), ln)
+        acc = e.fresh_like(acc0, "acc")
+        k = z3.Int(fresh_name("fk"))
+        body_st = st.fork()
+        body_st.pc += [k >= k0, k < xs.length, inv(acc, k, body_st)]
+        nxt = e.inline(f, [acc, e.elem(xs, k)], body_st, ln)
+        e.oblige(body_st, f"fold-step@L{ln}", "inv-step", inv(nxt, k + 1, body_st), ln)
+        e.obls.append(Obligation(f"cover-loop@L{ln}", "cover", body_st.pc, z3.BoolVal(False), ln, expect="sat",
+                                 detail=f"fold-body@L{ln}"))
+        res = e.fresh_like(acc0, "fold_result")
+        fact = inv(res, xs.length, st)
+        st.pc.append(z3.Implies(z3.And(*e.guards), fact) if e.guards else fact)
+        return res
+    raise Unsupported("reduce (only operator.and_/or_ over Booleans, or a lambda with a fold invariant, is modelled)")
 
 
 def _smt2(fn):
